@@ -423,6 +423,45 @@ def main(tier, seed):
                 v["run"] = name
                 v["spec"] = spec_path
                 viol.append(v)
+    # 1c. environment independence: which environment variables does a run consult (LD_PRELOAD getenv logger)? For
+    #     every name outside the runtime's own, the initial-mode workloads are repeated with it set to plausible values
+    env_names = []
+    so = B.getenv_shim()
+    if so is None:
+        env_names = ["<monitor skipped: no C compiler>"]
+    else:
+        probe_specs = [sp for sp in specs if sp[0].startswith("solo")][:6] + [sp for sp in specs if sp[0].startswith("duet")][:4]
+        logf = os.path.join(wdir, "getenv.log")
+        if os.path.exists(logf):
+            os.remove(logf)
+        e = dict(os.environ)
+        e["LD_PRELOAD"] = so
+        e["VERIF_GETENV_LOG"] = logf
+        for name, text, bats_ in probe_specs:
+            try:
+                p, spec_path = run_native(binary, text, wdir, "envscan-" + name, env=e, timeout=120)
+            except subprocess.TimeoutExpired:
+                errors.append("watchdog: envscan-%s" % name)
+                continue
+            if p.returncode != 0:
+                errors.append("envscan-%s exited with %d" % (name, p.returncode))
+                continue
+            account("envscan-" + name, check_log(p.stdout, bats_, "envscan-" + name), spec_path)
+        names = set(l.strip() for l in open(logf)) if os.path.exists(logf) else set()
+        env_names = ["<scan done>"] + sorted(names)
+        for n in sorted(x for x in names if x and not E.ENV_ALLOW.match(x)):
+            for val in E.ENV_VALUES:
+                e2 = dict(os.environ)
+                e2[n] = val
+                for name, text, bats_ in probe_specs[:4]:
+                    rn = "env-%s=%s-%s" % (n, val, name)
+                    try:
+                        p, spec_path = run_native(binary, text, wdir, rn, env=e2, timeout=120)
+                    except subprocess.TimeoutExpired:
+                        errors.append("watchdog: " + rn)
+                        continue
+                    if p.returncode == 0:
+                        account(rn, check_log(p.stdout, bats_, rn), spec_path)
     phase_small = round(time.time() - t_small, 1)
     phase = {"native": round(time.time() - t0, 1), "small_state": phase_small, "native_incl_churn_at": phase_churn}
     # 2. Miri, different scheduler seeds
@@ -535,6 +574,7 @@ def main(tier, seed):
     for l in lines:
         print(l)
     ev["coverage"]["phase_wall_s"] = phase
+    ev["coverage"]["environment_variables_consulted"] = env_names
     E.write_evidence(ID, ev)
     if tool_reports:
         kinds = {}
